@@ -172,6 +172,12 @@ func (h *vHist) putMd(key string, body []byte, n int) {
 // copy src -> dst inside the bucket; the version it creates is found through the listing
 func (h *vHist) copy(src, dst string, n int) {
 	h.noteWrite(dst)
+	if h.d5Keys[src] {
+		// the copy carries over what the source reads as — which known finding D5 (a write while
+		// Suspended over a version created while Enabled) has already made differ from the
+		// specification; an answer is attributed to it only while implementation and model agree
+		h.d5Keys[dst] = true
+	}
 	l, o := h.r.Copy(h.bucket, src, h.bucket, dst, map[string]string{"X-Amz-Meta-C": fmt.Sprint(n)})
 	h.judge(l, o, "copy", dst)
 	_, lo := h.r.ListVersions(VerListReq{Bucket: h.bucket, ClampedMaxKeys: 1000})
